@@ -65,7 +65,7 @@ def _replay_parse(o):
     s = note.split("string=", 1)[1].split(" ||", 1)[0]
     return f'''
 import sys
-sys.path.insert(0, "/repo")
+sys.path.insert(0, __import__("os").environ.get("PVC_REPO", "/repo"))
 from ptera.selector import parse, SelectorError
 s = {s!r}
 try:
@@ -207,7 +207,7 @@ def _replay_problems(o):
         nm_list = [nm]
     return f'''
 import sys
-sys.path.insert(0, "/repo")
+sys.path.insert(0, __import__("os").environ.get("PVC_REPO", "/repo"))
 from ptera import probing
 from ptera.selector import SelectorError
 VALID = ("#enter", "#error", "#exit", "#receive", "#value", "#yield")
@@ -320,7 +320,7 @@ def _replay_equiv(o):
     lhs, rhs = m.group(1), m.group(2)
     return f'''
 import sys
-sys.path.insert(0, "/repo")
+sys.path.insert(0, __import__("os").environ.get("PVC_REPO", "/repo"))
 from ptera.selector import parse
 def comp(s):
     try:
